@@ -58,6 +58,15 @@ def to_dt(tid, plus=0.0):
     return base + datetime.timedelta(seconds=round(ts.second() + plus, 6))
 
 
+def aware(dt, rnd):
+    """the same instant as the naive-UTC dt, written naive or timezone-aware with a random UTC offset"""
+    off = rnd.choice([None, None, 0, 120, -180, 330, -570])
+    if off is None:
+        return dt
+    tz = datetime.timezone(datetime.timedelta(minutes=off))
+    return dt.replace(tzinfo=datetime.timezone.utc).astimezone(tz)
+
+
 def run_case(sh, s, d, case):
     import ZODB
     import ZODB.MappingStorage
@@ -162,7 +171,7 @@ def run_case(sh, s, d, case):
         for _ in range(rnd.choice([0, 1, 1, 2])):
             j = rnd.randrange(len(snaps))
             tid = snaps[j][0]
-            form = rnd.choice(['at-tid', 'before-tid', 'before-tid+1', 'at-datetime+0.5', 'before-datetime+0.5'])   # exact instants only as raw tids: datetime has microsecond precision
+            form = rnd.choice(['at-tid', 'before-tid', 'before-tid+1', 'at-datetime+0.5', 'before-datetime+0.5', 'at-datetime+0.5', 'before-datetime+0.5'])   # exact instants only as raw tids: datetime has microsecond precision
             kw, bound = None, None
             if form == 'at-tid':
                 kw, bound = {'at': tid}, p64(u64(tid) + 1)
@@ -178,6 +187,7 @@ def run_case(sh, s, d, case):
                     continue
                 if plus and nxt is None:
                     continue               # would lie in the future
+                dt = aware(dt, rnd)
                 kw = {'at': dt}
                 # at=datetime: state as of that instant (inclusive)
                 from ZODB.DB import getTID
@@ -188,6 +198,7 @@ def run_case(sh, s, d, case):
                 nxt = snaps[j + 1][0] if j + 1 < len(snaps) else None
                 if plus and (nxt is None or TimeStamp(nxt).timeTime() - TimeStamp(tid).timeTime() < 0.9):
                     continue
+                dt = aware(dt, rnd)
                 kw = {'before': dt}
                 from ZODB.DB import getTID
                 bound = getTID(None, dt)
@@ -213,7 +224,7 @@ def run_case(sh, s, d, case):
                     # the datetime->tid conversion put the bound on the wrong side of a transaction
                     sh.violation('c15:%s:datetime-bound-selects-wrong-transaction' % kind, {'form': form, 'tid': tid, 'bound': bound, 'trace': trace}, case)
                     return None
-            h = {'conn': c, 'tm': tm, 'bound': bound, 'label': '%s@%d' % (form, j)}
+            h = {'conn': c, 'tm': tm, 'bound': bound, 'label': '%s@%d%s' % (form, j, ('(tz %s)' % kw[list(kw)[0]].utcoffset()) if 'datetime' in form and kw[list(kw)[0]].tzinfo else '')}
             hist.append(h)
             if not check(h, False):
                 return None
